@@ -2107,6 +2107,10 @@ func (a *Association) handleInit(pkt *packet, initChunk *chunkInit) ([]*packet, 
 	a.peerInterleaving = false
 	a.peerForwardTSN = false
 	a.peerIForwardTSN = false
+	// like the extensions above, zero checksum acceptance is a property of this
+	// INIT alone: an earlier INIT (another instance or configuration of the peer)
+	// may have advertised it
+	a.sendZeroChecksum = false
 
 	for _, param := range initChunk.params {
 		switch val := param.(type) { // nolint:gocritic
